@@ -664,6 +664,59 @@ fn poll_probes(out: &mut dyn Write) -> Result<(), String> {
   Ok(())
 }
 
+// the virtual keyboard goes away (EPIPE on the write): the real loop with the real driver must return the error
+// (child exit code 11) instead of going on.  Appends one POLLPROBE line.
+fn send_error_probe(out: &mut dyn Write, exe: &std::path::Path, layout_file: &str) -> Result<(), String> {
+  {
+    let mut f = std::fs::File::create(layout_file).map_err(|e| format!("cannot write {}: {}", layout_file, e))?;
+    let m = Mapping { from: vec![key(30)], to: vec![key(48)], repeat: Repeat::Normal, absorbing: vec![] };
+    writeln!(f, "{}", mapping_line(&m)).map_err(|e| e.to_string())?;
+  }
+  let (kr, kw) = pipe_cloexec()?;
+  let (tr, tw) = pipe_cloexec()?;
+  let (or, ow) = pipe_cloexec()?;
+  set_nonblock(kr, true); set_nonblock(tr, true);
+  let mut cmd = Command::new(exe);
+  cmd.arg("realloop-child").arg(layout_file).arg(kr.to_string()).arg(tr.to_string()).arg(ow.to_string());
+  cmd.stdin(Stdio::null()).stdout(Stdio::null()).stderr(Stdio::null());
+  unsafe {
+    cmd.pre_exec(move || {
+      for fd in [kr, tr, ow].iter() {
+        let fl = libc::fcntl(*fd, libc::F_GETFD);
+        if fl < 0 || libc::fcntl(*fd, libc::F_SETFD, fl & !libc::FD_CLOEXEC) < 0 { return Err(std::io::Error::last_os_error()); }
+      }
+      Ok(())
+    });
+  }
+  let mut ch = match cmd.spawn() {
+    Ok(ch) => ch,
+    Err(e) => { for fd in [kr, kw, tr, tw, or, ow].iter() { close(*fd); } return Err(format!("cannot start the child process: {}", e)); }
+  };
+  close(kr); close(tr); close(ow);
+  close(or);                                   // nobody reads the virtual keyboard any more
+  let mut rec = vec![0u8; REC];
+  rec[16] = 1; rec[18] = 30; rec[20] = 1;      // EV_KEY, KEY_A, pressed
+  let _ = write_all(kw, &rec);
+  let t0 = Instant::now();
+  let mut status = None;
+  while t0.elapsed() < Duration::from_millis(4000) {
+    if let Some(s) = child_status(&mut ch) { status = Some(s); break; }
+    std::thread::sleep(Duration::from_millis(5));
+  }
+  let observed = match status {
+    Some(s) => s,
+    None => {
+      // still running: did it at least read the event?
+      let u = unread(kw);
+      let _ = ch.kill(); let _ = ch.wait();
+      format!("still-running-after-4s(unread-keyboard-bytes={})", u)
+    }
+  };
+  writeln!(out, "POLLPROBE output-gone-on-send expected=exit:11 observed={}", observed).map_err(|e| e.to_string())?;
+  close(kw); close(tw);
+  Ok(())
+}
+
 // ------------------------------------------------------------------ entry points
 
 pub fn main(args: &[String]) -> i32 {
@@ -683,6 +736,7 @@ pub fn main(args: &[String]) -> i32 {
     let path = format!("{}/poll_probes.txt", out_dir);
     let mut f = std::fs::File::create(&path).expect("create poll_probes.txt");
     if let Err(e) = poll_probes(&mut f) { println!("REALLOOP-UNAVAILABLE poll probes: {}", e); return EXIT_UNAVAILABLE; }
+    if let Err(e) = send_error_probe(&mut f, &exe, &format!("{}/probe.layout", out_dir)) { println!("REALLOOP-UNAVAILABLE send-error probe: {}", e); return EXIT_UNAVAILABLE; }
   }
   let t0 = Instant::now();
   let cases = Arc::new(make_cases(seed, thorough, scale));
